@@ -8,6 +8,7 @@
 //! Property oracles are evaluated on the implementation directly (see `judge`).
 pub mod pair;
 pub mod hs;
+pub mod refpeer;
 use crate::{Args, Rng, Run, hex, unhex};
 use bytes::Bytes;
 use pair::*;
